@@ -125,6 +125,23 @@ def rule_client_side(ctx):
                                   "cursor", "FakeSnowflakeCursor.execute", f"{style}/{pname}: {pr[:90]}", "fakesnow/cursor.py",
                                   f"paramstyle {style}, {pname} parameters: {pr}")
     ctx.floor("C08.a traces", n, 6)
+    # nothing to bind (None, or an empty tuple / list / dict): the text is nobody's format string — it reaches the parser as
+    # written (`like 'a%'`, `10 % 3`, `'%%'` untouched) and the engine gets no parameters to complain about
+    k = 0
+    for pname, params in (("None", None), ("()", Tup([])), ("[]", Lst([])), ("{}", Dct({}))):
+        for tr in run_execute(prog, "SELECT", None, params=params, paramstyle="pyformat"):
+            if not tr.hooks.parsed:
+                continue
+            k += 1
+            arg = _parse_arg(tr)
+            mod = next((x for x in _prov_nodes(arg) if isinstance(x, Sym) and x.origin and x.origin[0] == "binop" and x.origin[1] == "Mod"), None)
+            ok = mod is None
+            ctx.ob("C08.a", f"pyformat with params={pname}: the command is not %-formatted", ok, "fakesnow/cursor.py", "" if ok else tagof(mod)[:60])
+            if not ok:
+                ctx.violation("C08.a", "cursor", "FakeSnowflakeCursor.execute", f"params={pname}: text %-formatted with nothing to bind", "fakesnow/cursor.py",
+                              f"execute(command, {pname}) under paramstyle pyformat computes `command % {pname}`: a literal `%` in the statement "
+                              f"(LIKE 'a%', 10 % 3) raises a Python formatting error and `'%%'` silently becomes `'%'`, although no value was bound")
+    ctx.floor("C08.a no-parameter traces", k, 4)
 
 
 def rule_server_side(ctx):
